@@ -7,13 +7,13 @@ CHECKS = {
  "C01": dict(
   engine="SEQ+GEN",
   technique="explicit-state model checking: exhaustive BFS over bounded rule-lifecycle histories on the real Location with every event dispatched in every state, plus bounded-exhaustive (when,event) pair enumeration, reference-model oracle",
-  text="All AddRule/RemRule/AddFact-over-rule-id/EnableRule/Clear/ProcessEvent sequences up to depth 3 (quick) / 4 (thorough) over two rule ids and 16 when-patterns chosen to reach every PatternIndex node kind, on indexed and linear state with and without a parent location; in every reached canonical state all 14 events are dispatched and the dispatched set, bindings, dispositions and SearchRules candidates are compared with a reference model. Additionally every (when, event) pair of a bounded JSON grammar is run on a fresh index and fresh locations.",
+  text="All AddRule/RemRule/AddFact-over-rule-id/EnableRule/Clear/ProcessEvent sequences up to depth 3 (quick) / 4 (thorough) over two rule ids and 16 when-patterns chosen to reach every PatternIndex node kind, on indexed and linear state with and without a parent location; in every reached canonical state all 14 events are dispatched and the dispatched set, bindings, dispositions and SearchRules candidates are compared with a reference model. Additionally every (when, event) pair of a bounded JSON grammar is run on a fresh index and fresh locations. The alphabet also holds a `when` the rule parser accepts and the pattern index refuses: a refused replacement must leave the old rule dispatched.",
   note="Trusts core.Matches as the definition of a match (C05), explicit {when:{pattern}} rule form, the L1 rewriter. Histories behind a state-diverging violation are not expanded.",
   design="2/C01"),
  "C03": dict(
   engine="GEN",
   technique="bounded-exhaustive enumeration of query trees x fact subsets x topologies on the real query evaluator against a reference evaluator (multiset equality)",
-  text="Every query tree up to depth 2 over 12 leaves, plus every tree with an operator directly under an operator over a 4-leaf pool (quick; over a 6-leaf pool in thorough), built from 12 leaves (empty, four patterns sharing variables, seven code templates) with and/or/or+shortCircuit of arity 0..2 and not, is evaluated on every subset of a 4-fact universe, with the facts local or split between the location and its parent, by Location.Query and, wrapped as a rule condition, by ProcessEvent; results (or the error) are compared as multisets with a 60-line reference evaluator written from the property statement.",
+  text="Every query tree up to depth 2 over 12 leaves, plus every tree with an operator directly under an operator over a 4-leaf pool (quick; over a 6-leaf pool in thorough), built from 12 leaves (empty, four patterns sharing variables, seven code templates) with and/or/or+shortCircuit of arity 0..2 and not, is evaluated on every subset of a 4-fact universe, with the facts local or split between the location and its parent, by Location.Query and, wrapped as a rule condition, by ProcessEvent; results (or the error) are compared as multisets with a 60-line reference evaluator written from the property statement. A fifth fact ({\"a\":\"1\"}, the JSON-type twin of the first) is added to the fact universe: all 32 subsets for the small trees, two for the rest.",
   note="Trusts core.Matches for fact matching (C05) and the native evaluation of the seven code templates in the reference. Bounded tree depth/arity.",
   design="2/C03"),
  "C06": dict(
@@ -26,13 +26,13 @@ CHECKS = {
  "C07": dict(
   engine="SEQ",
   technique="explicit-state model checking under a harness-owned virtual clock: exhaustive BFS over write / clock-advance / reload / observe sequences, state-hash dedup, reference-model oracle",
-  text="For 6 expiry encodings x {fact, rule} x {indexed, linear}: every sequence (depth 5 quick / 7 thorough; the reachable canonical state space is exhausted before the bound) over write, write-already-expired, advancing the virtual clock to 9 instants around the expiry (including E-1ns and E), reload from storage, GetFact/GetRule, SearchFacts, SearchRules and ProcessEvent; the expiry instant is read back, bounded against now+ttl and required never to move; visibility must flip exactly at E; observed-expired items must be gone from storage; already-expired writes must be refused without trace.",
+  text="For 6 expiry encodings x {fact, rule} x {indexed, linear}: every sequence (depth 5 quick / 7 thorough; the reachable canonical state space is exhausted before the bound) over write, write-already-expired, advancing the virtual clock to 9 instants around the expiry (including E-1ns and E), reload from storage, GetFact/GetRule, SearchFacts, SearchRules and ProcessEvent; the expiry instant is read back, bounded against now+ttl and required never to move; visibility must flip exactly at E; observed-expired items must be gone from storage; already-expired writes must be refused without trace. Four more operations repeat the observations while the storage refuses the next mutating call (the lazy purge): the expired item must stay unobservable.",
   note="Trusts that every clock read goes through the rewritten `time` import (instr reports all swaps). Rules with an RFC3339 string expires are outside AddRule's input domain (Rule.Expires is numeric) and not explored.",
   design="2/C07"),
  "C08": dict(
   engine="GEN+SEQ",
   technique="bounded-exhaustive enumeration of all dependency graphs x deletion sequences x owned map-iteration orders on the real states, reverse-reachability oracle, crash-attributing worker processes",
-  text="All 4096 deleteWith graphs over three nodes (targets: the nodes and a dangling id; self-loops, cycles, chains, fans) x 7 variants (plain facts, a rule node, a property fact, an id spelled ?q, an expiring node deleted by a read, an overwritten dependent with stale index entries, an id spelled \"id\") x 9 sequences of one or two deletions x {indexed, linear under every iteration order of its fact map}; after each deletion GetFact, SearchFacts and the storage pairs must show exactly the reverse-reachability survivors. Non-termination (stack overflow) kills a worker and is attributed to its journaled case.",
+  text="All 4096 deleteWith graphs over three nodes (targets: the nodes and a dangling id; self-loops, cycles, chains, fans) x 7 variants (plain facts, a rule node, a property fact, an id spelled ?q, an expiring node deleted by a read, an overwritten dependent with stale index entries, an id spelled \"id\") x 9 sequences of one or two deletions x {indexed, linear under every iteration order of its fact map}; after each deletion GetFact, SearchFacts and the storage pairs must show exactly the reverse-reachability survivors. Non-termination (stack overflow) kills a worker and is attributed to its journaled case. For the single deletions of the plain-fact variant additionally: the 1st/2nd/3rd storage call of the deletion fails and the caller retries once; after the acknowledged retry nothing that names the deleted id may survive and nothing else may be gone.",
   note="Deleting an id that is not live is unspecified and skipped. Quick tier subsamples non-default variants (every 4th graph) and linear map orders (2 of 6); thorough is complete.",
   design="2/C08"),
  "C09": dict(
@@ -44,7 +44,7 @@ CHECKS = {
  "C11": dict(
   engine="SCHED",
   technique="stateless model checking of the implementation: controlled scheduler + deviation-bounded DFS over schedules of clients on a fresh sys.System, solo-run differential oracle, vector-clock race detection on maps and on sys/cron struct fields",
-  text="Client threads each own one location of a FRESH sys.System (so the very first requests race on start-up state): all ordered pairs of {AddFact, SearchFacts, AddRule, ProcessEvent, GetFact} as first requests, six 2x2-request programs, (thorough) three clients; the storage is created lazily by the System or injected; both states. Every schedule with at most 2 deviations (3 thorough) is executed: each client's results must equal those of running it alone on a fresh System, each location's memory and the pairs stored for it in THE SYSTEM'S storage must equal the solo run's, and there must be no deadlock, escaped panic or happens-before race (map accesses everywhere, pointer-reached struct fields in sys and cron are race-checked and are scheduling points).",
+  text="Client threads each own one location of a FRESH sys.System (so the very first requests race on start-up state): all ordered pairs of {AddFact, SearchFacts, AddRule, ProcessEvent, GetFact} as first requests, six 2x2-request programs, (thorough) three clients; the storage is created lazily by the System or injected; both states. Every schedule with at most 2 deviations (3 thorough) is executed: each client's results must equal those of running it alone on a fresh System, each location's memory and the pairs stored for it in THE SYSTEM'S storage must equal the solo run's, and there must be no deadlock, escaped panic or happens-before race (map accesses everywhere, pointer-reached struct fields in sys and cron are race-checked and are scheduling points). Method calls on standard-library objects that are not safe for concurrent use (rand.Rand, bytes.Buffer, bufio, list, JSON coders, big numbers) are race-checked accesses to the object.",
   note="The HTTP layer itself is not scheduled (requests enter at the sys.System API; the service mapping is C18). Struct-field instrumentation is limited to packages sys and cron.",
   design="2/C11"),
  "C12": dict(
@@ -56,37 +56,37 @@ CHECKS = {
  "C14": dict(
   engine="GEN+SCHED",
   technique="stateless model checking under a controlled scheduler with virtual time as a participant: deviation-bounded DFS over schedules and timer landings of script family x timeout setting x context; native real-time deadline only for busy loops",
-  text="9 script families (value, binding, throwing, undefined variable, syntax error, non-terminating with Env.sleep, slow-but-finishing at 4/6/12 ms) x 12 timeout settings (Control.JavascriptTimeout {0,5ms,negative} x DefaultJavascriptTimeout {10ms,negative} x JavascriptTimeouts on/off) x 4 contexts (Location.RunJavascript, rule condition, one disjunct of a rule condition next to one that holds, rule action through ProcessEvent) run under the scheduler with virtual time; every schedule with at most 2 deviations (3 thorough), where the watchdog timer landing early at any scheduling point is a deviation. The caller must return on every schedule; an overrunning script must yield an error / non-complete node within limit + one wait quantum; throwing and invalid scripts yield errors; within-limit scripts return their value. Busy loops without a scheduling point (while(true){}, while(true){x=1}, for(;;){}, for(;;){x=1}, do{}while(true)) run natively in child processes with a 50 ms limit against a 20 s deadline (3 isolated runs each).",
+  text="9 script families (value, binding, throwing, undefined variable, syntax error, non-terminating with Env.sleep, slow-but-finishing at 4/6/12 ms) x 12 timeout settings (Control.JavascriptTimeout {0,5ms,negative} x DefaultJavascriptTimeout {10ms,negative} x JavascriptTimeouts on/off) x 4 contexts (Location.RunJavascript, rule condition, one disjunct of a rule condition next to one that holds, rule action through ProcessEvent) run under the scheduler with virtual time; every schedule with at most 2 deviations (3 thorough), where the watchdog timer landing early at any scheduling point is a deviation. The caller must return on every schedule; an overrunning script must yield an error / non-complete node within limit + one wait quantum; throwing and invalid scripts yield errors; within-limit scripts return their value. Busy loops without a scheduling point (while(true){}, while(true){x=1}, for(;;){}, for(;;){x=1}, do{}while(true)) run natively in child processes with a 50 ms limit against a 20 s deadline (3 isolated runs each). A fifth context evaluates the script as a code condition for two candidate bindings, of which only one behaves like the template (a failure for one candidate is a failed node).",
   note="Code between scheduling points takes no virtual time; an early timer landing models slow real execution, so a finishing script may then end either way (but never hang, never success with a nil value).",
   design="2/C14"),
  "C13": dict(
   engine="GEN",
   technique="bounded-exhaustive enumeration of the input language (skeleton x value documents in every role, at every layer, on both states) on the real code in journaled child processes, with recover / watchdog / process-death attribution and canary traffic after every input",
-  text="Every document (hole at one reserved position, or a hole next to a `when` that the canary event matches - rule, when, pattern, condition, action(s), code, schedule, expires, ttl, deleteWith, id, !props, and/or/not, trigger!, evaluate!, location(s), inherited, uri, variable-looking keys - filled with every value of a pool: 7 leaves, all containers of them to nesting 2 (3 thorough) including empty and heterogeneous ones, variable-looking keys, maps and arrays nested 100 and 3000 deep) is used as fact, rule, pattern, query, event and whole HTTP request body through core.Location, sys.System (with cron hooks) and service.HTTPService.ServeHTTP, on indexed and linear state, each on a fresh pre-populated location and followed by seven canary operations (add, find, get, fire a rule, query, remove, list). Each case is journaled before it runs in a child process: a recovered panic, a call that does not return (re-run alone with a 60 s watchdog), a dead process (re-run alone) and a failing or wrong canary are violations; the supervisor carries on behind a crash.",
+  text="Every document (hole at one reserved position, or a hole next to a `when` that the canary event matches - rule, when, pattern, condition, action(s), code, schedule, expires, ttl, deleteWith, id, !props, and/or/not, trigger!, evaluate!, location(s), inherited, uri, variable-looking keys - filled with every value of a pool: 7 leaves, all containers of them to nesting 2 (3 thorough) including empty and heterogeneous ones, variable-looking keys, maps and arrays nested 100 and 3000 deep) is used as fact, rule, pattern, query, event and whole HTTP request body through core.Location, sys.System (with cron hooks) and service.HTTPService.ServeHTTP, on indexed and linear state, each on a fresh pre-populated location and followed by seven canary operations (add, find, get, fire a rule, query, remove, list). Each case is journaled before it runs in a child process: a recovered panic, a call that does not return (re-run alone with a 60 s watchdog), a dead process (re-run alone) and a failing or wrong canary are violations; the supervisor carries on behind a crash. The fact role also runs two multi-stage queries over the stored document (the first stage binds variables to whatever it holds, a later stage mentions them again).",
   note="Quick: about 96,000 cases (600,000 guarded calls). The virtual clock is frozen, so JavaScript watchdogs never fire; scripts in the language do not loop (C14 owns runaway scripts). After three hangs of one skeleton the rest of that skeleton is skipped and the run reported as not exhaustive.",
   design="2/C13"),
  "C15": dict(
   engine="SEQ+SCHED",
   technique="explicit-state model checking: exhaustive BFS over scheduled-rule histories on sys.System with a recording cron service and a which-rule-is-live-where model, plus stateless schedule exploration of the same kinds of history against the real built-in cron under the controlled scheduler with virtual time",
-  text="Sequential: BFS (one location to depth 5 / 7 thorough; two locations sharing rule id r to depth 4 / 6) over AddRule(recurring | with condition | deleteWith c | expiring | one-shot | ordinary), AddFact over the rule id, RemRule, AddFact/RemFact(c), ClearLocation, clock += 3s, restart over the same storage, tick(L); cron service shaped like the built-in one (ephemeral, ticks to the captured instance) and like the external crolt one (persistent, resolved by name), both states. In every reached state the registrations held by the cron service must equal the live scheduled rules; every delivered tick must produce exactly the live scheduled rule's action value in its own location, nothing otherwise; a one-shot is gone after it ran. Concurrent: sys.System wired to the real cron.InternalCron/cron.Cron, 8 histories (same id in two locations, replace, overwrite, remove, clear, cascade, one-shot, restart), both states, every schedule with at most 2 (3) deviations: no evaluation after the ending call returned, live rules keep being evaluated in their own location, pending jobs == live scheduled rules.",
+  text="Sequential: BFS (one location to depth 5 / 7 thorough; two locations sharing rule id r to depth 4 / 6) over AddRule(recurring | with condition | deleteWith c | expiring | one-shot | ordinary), AddFact over the rule id, RemRule, AddFact/RemFact(c), ClearLocation, clock += 3s, restart over the same storage, tick(L); cron service shaped like the built-in one (ephemeral, ticks to the captured instance) and like the external crolt one (persistent, resolved by name), both states. In every reached state the registrations held by the cron service must equal the live scheduled rules; every delivered tick must produce exactly the live scheduled rule's action value in its own location, nothing otherwise; a one-shot is gone after it ran. Concurrent: sys.System wired to the real cron.InternalCron/cron.Cron, 8 histories (same id in two locations, replace, overwrite, remove, clear, cascade, one-shot, restart), both states, every schedule with at most 2 (3) deviations: no evaluation after the ending call returned, live rules keep being evaluated in their own location, pending jobs == live scheduled rules. The real-cron part has a ninth history: a rule that reschedules itself under its own id from its own action while its tick runs.",
   note="The recording Cronner is the harness's; the schedule part ties its built-in shape to the real InternalCron. An expired rule's registration may remain (only its ticks are judged). Two engines decide this property; bin/run.sh runs both and folds the evidence.",
   design="2/C15"),
  "C16": dict(
   engine="SCHED+SEQ",
   technique="stateless schedule exploration of the in-memory cron under the controlled scheduler with virtual time, plus explicit-state BFS over operation histories (including reopen points and transaction-granularity interruptions of Add) of the real Bolt-backed crolt service",
-  text="In-memory cron.Cron: loop goroutine, firing goroutines and 1-2 client threads issuing Add (one-shot, recurring every second), Rem, replace, Suspend/Resume/Pause, horizon 4 virtual seconds, every schedule with at most 2 deviations (3 thorough; an early timer landing is a deviation): no callback before the due time, one-shot exactly once, recurring at most once per occurrence, at most one pending entry per id at an arbitrary observation point, nothing fires after Rem returned, suspension only delays. crolt: BFS to depth 6 (8 thorough) over {POST add (one-shot 1s/1500ms, recurring), POST rem, DeleteAccount, one work() pass per partition, clock += 500ms/1s/TTL, close-and-reopen the Bolt file, Add interrupted between its existence check and its write by a second client's Add/Delete/DeleteAccount/work} on a real Bolt file with a virtual clock and a recording HTTP RoundTripper; after every operation jobs<p> and time<p> must agree key for key with one time key per job, and no firing may precede the instant in its time key, hit a deleted job, repeat within a pass or repeat for a one-shot.",
+  text="In-memory cron.Cron: loop goroutine, firing goroutines and 1-2 client threads issuing Add (one-shot, recurring every second), Rem, replace, Suspend/Resume/Pause, horizon 4 virtual seconds, every schedule with at most 2 deviations (3 thorough; an early timer landing is a deviation): no callback before the due time, one-shot exactly once, recurring at most once per occurrence, at most one pending entry per id at an arbitrary observation point, nothing fires after Rem returned, suspension only delays. crolt: BFS to depth 6 (8 thorough) over {POST add (one-shot 1s/1500ms, recurring), POST rem, DeleteAccount, one work() pass per partition, clock += 500ms/1s/TTL, close-and-reopen the Bolt file, Add interrupted between its existence check and its write by a second client's Add/Delete/DeleteAccount/work} on a real Bolt file with a virtual clock and a recording HTTP RoundTripper; after every operation jobs<p> and time<p> must agree key for key with one time key per job, and no firing may precede the instant in its time key, hit a deleted job, repeat within a pass or repeat for a one-shot. The crolt driver also delivers a second client's Delete / Add while the firing pass's first outbound request is in flight (only when no Bolt write transaction of the pass is open).",
   note="crolt is package main: its explorer is injected into the package through the overlay and run as a subprocess. MaxJitter = 0. A second crolt client interleaves at transaction granularity only (Bolt serialises transactions); crash atomicity inside one Bolt transaction is Bolt's guarantee. Two engines decide this property; bin/run.sh runs both and folds the evidence.",
   design="2/C16"),
  "C17": dict(
   engine="SEQ+SCHED",
   technique="explicit-state differential model checking over cache configurations (BFS over request histories run on seven worlds at once) plus stateless schedule exploration of concurrent requests through sys.System",
-  text="Sequential: BFS to depth 4 (6 thorough) over {CreateLocation, AddFact, RemFact, GetFact, SearchFacts, AddRule, ProcessEvent, ClearLocation, AddFact of a non-numeric !cacheTTL property} on two locations and clock += 2ms; every history runs simultaneously on a cache-less core.Location and on six sys.System worlds (LocationTTL never/1ms/forever x CheckExistence off/on, recording storage, virtual clock), both states: all answers must agree, refused requests to uncreated locations must leave no storage pair and no cache entry. Concurrent: under the controlled scheduler, concurrent FIRST requests for one location (TTL forever/1ms) must call Storage.Load exactly once, and 2-3 clients x 1-2 requests on one location (TTL never/1ms) must be linearizable against sequential runs through an identically configured System, stored pairs included (deviation bound 1 quick / 2 thorough).",
+  text="Sequential: BFS to depth 4 (6 thorough) over {CreateLocation, AddFact, RemFact, GetFact, SearchFacts, AddRule, ProcessEvent, ClearLocation, AddFact of a non-numeric !cacheTTL property} on two locations and clock += 2ms; every history runs simultaneously on a cache-less core.Location and on six sys.System worlds (LocationTTL never/1ms/forever x CheckExistence off/on, recording storage, virtual clock), both states: all answers must agree, refused requests to uncreated locations must leave no storage pair and no cache entry. Concurrent: under the controlled scheduler, concurrent FIRST requests for one location (TTL forever/1ms) must call Storage.Load exactly once, and 2-3 clients x 1-2 requests on one location (TTL never/1ms) must be linearizable against sequential runs through an identically configured System, stored pairs included (deviation bound 1 quick / 2 thorough). The two locations are named A and a (names that differ only in letter case are two locations).",
   note="Two engines decide this property; bin/run.sh runs both and folds the evidence. Errors are compared by class; removing an id that is not stored is unspecified.",
   design="2/C17"),
  "C18": dict(
   engine="GEN",
   technique="bounded-exhaustive differential enumeration of logical requests x encodings x URI spellings through service.HTTPService.ServeHTTP against the direct call on a twin sys.System (result, status and resulting state compared)",
-  text="Every logical request of a bounded language - 19 /api/loc operations (facts add/get/rem/search/query/take/replace, rules add/rem/list/enable/disable/enabled, events/ingest, parents get/set, admin size/clear/create) x ids, locations, facts, patterns, rules, events and queries chosen to need URL, JSON and YAML escaping, on a populated and an empty system - is sent in every encoding that can express it (JSON body, /api/json envelope, query string, form body, YAML body, /api/yaml envelope, batch element, location in the query plus JSON body) and in four URI spellings (/api/loc, /loc, /v1.0/loc, /2/api/loc), each on a fresh service world, and directly to a twin System with the same history: HTTP 200 iff the direct call succeeds (400 otherwise), the body is JSON and the result extracted from it equals the direct result, and the location's memory + storage equal the twin's. Ill-formed variants (each required parameter dropped, each parameter with 2-7 wrong types including malformed JSON text in forms, unknown URIs) must give 400 and leave the state untouched. Both states.",
+  text="Every logical request of a bounded language - 19 /api/loc operations (facts add/get/rem/search/query/take/replace, rules add/rem/list/enable/disable/enabled, events/ingest, parents get/set, admin size/clear/create) x ids, locations, facts, patterns, rules, events and queries chosen to need URL, JSON and YAML escaping, on a populated and an empty system - is sent in every encoding that can express it (JSON body, /api/json envelope, query string, form body, YAML body, /api/yaml envelope, batch element, location in the query plus JSON body) and in four URI spellings (/api/loc, /loc, /v1.0/loc, /2/api/loc), each on a fresh service world, and directly to a twin System with the same history: HTTP 200 iff the direct call succeeds (400 otherwise), the body is JSON and the result extracted from it equals the direct result, and the location's memory + storage equal the twin's. Ill-formed variants (each required parameter dropped, each parameter with 2-7 wrong types including malformed JSON text in forms, unknown URIs) must give 400 and leave the state untouched. Both states. One stored rule id contains an ASCII control character (its JSON rendering needs a \\u00XX escape).",
   note="About 22,500 HTTP requests for 1,000 logical requests. Ids are always given (generated ids differ between worlds); take/replace are compared with the documented search-remove-add composition; a refused replace may already have taken.",
   design="2/C18"),
  "C19": dict(
@@ -104,13 +104,13 @@ CHECKS = {
  "C10": dict(
   engine="SEQ",
   technique="explicit-state model checking: exhaustive BFS over rule-lifecycle histories (add/overwrite/remove/disable/enable/reload/location toggle/expiry) under a virtual clock, lifecycle-automaton oracle",
-  text="BFS over AddRule(v1 | v2, which names the event variable differently | expiring) / RemRule / EnableRule / Reload / location disable+enable / clock past the expiry / ProcessEvent / trigger! sequences on {indexed, linear} x {rules local, rules inherited from a parent and toggled in the child}: one rule id to depth 6 (9 thorough), two ids to depth 4 (5). In every reached canonical state the plain event, a trigger! event per id, RuleEnabled and ListRules are compared with the lifecycle automaton (fires with the version last added iff present, unexpired, not disabled here, location enabled); in every disabled state 20 public Location operations must return the disabled error and leave the privileged snapshot (private state dump + storage) unchanged.",
+  text="BFS over AddRule(v1 | v2, which names the event variable differently | expiring) / RemRule / EnableRule / Reload / location disable+enable / clock past the expiry / ProcessEvent / trigger! sequences on {indexed, linear} x {rules local, rules inherited from a parent and toggled in the child}: one rule id to depth 6 (9 thorough), two ids to depth 4 (5). In every reached canonical state the plain event, a trigger! event per id, RuleEnabled and ListRules are compared with the lifecycle automaton (fires with the version last added iff present, unexpired, not disabled here, location enabled); in every disabled state 20 public Location operations must return the disabled error and leave the privileged snapshot (private state dump + storage) unchanged. RemRule is also run while its first / second storage call fails: a rule that is still there afterwards keeps its flag.",
   note="EnableRule only on ids that hold a rule; flag semantics for a parent rule removed while flagged in the child are left unspecified until the next EnableRule; trigger! is only required not to fire suppressed/dead rules when the rule is inherited.",
   design="2/C10"),
  "C04": dict(
   engine="GEN+SCHED",
   technique="bounded-exhaustive enumeration of rule/binding/action shapes, each executed under the controlled scheduler with deviation-bounded DFS over schedules; recording-function oracle + happens-before race detection",
-  text="All shapes {1..2 rules} x {1,2 when-bindings via an array pattern} x {no condition, a pattern condition yielding 0/1/2 bindings, a disjunction of two code terms of which one adds a variable} x {1 action, 2 actions, 2 actions with a throwing one} x serialActions {off, on, only on rule 1, only on rule 2} x state: the event is processed under the scheduler (action goroutines, WaitGroup, Values mutex, shared Bindings maps all visible) for every schedule with at most 1 deviation (2 thorough). A Go function installed through App.UpdateJavascriptRuntime records every execution with the variables it can see; the multiset of executions, the work tree nodes, Values and dispositions must equal the expected product, a failing action of a non-serial rule must not stop or alter anything else, and no deadlock, escaped panic or happens-before race may occur.",
+  text="All shapes {1..2 rules} x {1,2 when-bindings via an array pattern} x {no condition, a pattern condition yielding 0/1/2 bindings, a disjunction of two code terms of which one adds a variable} x {1 action, 2 actions, 2 actions with a throwing one} x serialActions {off, on, only on rule 1, only on rule 2} x state: the event is processed under the scheduler (action goroutines, WaitGroup, Values mutex, shared Bindings maps all visible) for every schedule with at most 1 deviation (2 thorough). A Go function installed through App.UpdateJavascriptRuntime records every execution with the variables it can see; the multiset of executions, the work tree nodes, Values and dispositions must equal the expected product, a failing action of a non-serial rule must not stop or alter anything else, and no deadlock, escaped panic or happens-before race may occur. A fourth action shape has a first action whose code does not compile (AddRule accepts it): it fails on its own node and nothing else changes.",
   note="Actions come from one template family reporting candidate variables x,y,e,event,location,ruleId,z. With serialActions a failing action may stop the walk (only 'never twice' is then required).",
   design="2/C04"),
  "C05": dict(
@@ -122,7 +122,7 @@ CHECKS = {
  "C02": dict(
   engine="SEQ",
   technique="explicit-state model checking: exhaustive BFS over bounded operation sequences on the real Location, state-hash dedup, reference-model oracle",
-  text="Every AddFact/AddRule/RemFact/GetFact/SearchFacts sequence up to the depth bound (3 quick / 5 thorough) over ids {f1,f2,generated}, 13 facts and 19 patterns is executed on the real indexed and linear states and compared step by step, and by a full probe battery in every reached state, with a map-based reference model; states are deduplicated on model + private index dump + storage, so the reachable canonical state space within the bound is covered completely.",
+  text="Every AddFact/AddRule/RemFact/GetFact/SearchFacts sequence up to the depth bound (3 quick / 5 thorough) over ids {f1,f2,generated}, 13 facts and 19 patterns is executed on the real indexed and linear states and compared step by step, and by a full probe battery in every reached state, with a map-based reference model; states are deduplicated on model + private index dump + storage, so the reachable canonical state space within the bound is covered completely. One fact/pattern pair uses a string the JSON encoder escapes (<, &, quotes, a control character).",
   note="Trusts core.Matches as the definition of a match (decided separately by C05), the Go toolchain, and the rewriter's two L1 transformations (virtual clock, sorted map iteration). Generated ids are compared up to renaming.",
   design="2/C02"),
 }
